@@ -77,8 +77,12 @@ type inliner struct {
 	sites        map[*ssa.Function]int // inlined call sites per helper
 	skipped      map[*ssa.Function]string
 	errs         []string
-	litArgs      int // go/defer literals whose arguments were turned into captured variables
-	regionCopies int // calls through a function variable made direct by copying the code after a merge per way in
+	litArgs      int                    // go/defer literals whose arguments were turned into captured variables
+	regionCopies int                    // calls through a function variable made direct by copying the code after a merge per way in
+	ever         map[*ssa.Function]bool // every function changed by the normalisation
+	flagsNamed   int                    // constant flags replaced by the tested flag they equal
+	devirt       int                    // calls through an interface of known dynamic type made direct
+	tables       int                    // lookups in a package-level table of functions turned into the chain of tests they stand for
 }
 
 func addRef(v ssa.Value, in ssa.Instruction) {
@@ -766,6 +770,67 @@ func (in *inliner) inlineBody(f *ssa.Function, call *ssa.Call, g *ssa.Function, 
 // path: nil, boolean and numeric constants, and values that are never nil
 // (errors.New, fmt.Errorf, conversions to interface, addresses, make).
 func (in *inliner) thread(f *ssa.Function, cont *ssa.BasicBlock) {
+	in.threadDepth(f, cont, 0)
+}
+
+// rematResultLoads: a read of an inlined call's result variable that is used in other blocks
+// too (the tag of a `switch h(x) { case A: .. case B: .. }` is read once and compared in one
+// block per case) is read again where it is used: the variable is written at the return
+// sites only, so every read after them sees the same value. The block then passes no value on
+// and can be copied per way in.
+func rematResultLoads(b *ssa.BasicBlock) {
+	for _, x := range append([]ssa.Instruction(nil), b.Instrs...) {
+		ld, ok := x.(*ssa.UnOp)
+		if !ok || ld.Op != token.MUL {
+			continue
+		}
+		al, ok := ld.X.(*ssa.Alloc)
+		if !ok || al.Comment != "inl.result" {
+			continue
+		}
+		perBlock := map[*ssa.BasicBlock]*ssa.UnOp{}
+		for _, u := range append([]ssa.Instruction(nil), *ld.Referrers()...) {
+			ub := u.Block()
+			if ub == b || ub == nil {
+				continue
+			}
+			if _, isPhi := u.(*ssa.Phi); isPhi {
+				continue
+			}
+			if _, isDbg := u.(*ssa.DebugRef); isDbg {
+				continue
+			}
+			n := perBlock[ub]
+			if n == nil {
+				n = &ssa.UnOp{Op: token.MUL, X: al}
+				ssa.XSetType(n, ld.Type())
+				ssa.XSetPos(n, ld.Pos())
+				ssa.XSetBlock(n, ub)
+				addRef(al, n)
+				// before the first instruction of the block that is not a phi
+				k := 0
+				for k < len(ub.Instrs) {
+					if _, isPhi := ub.Instrs[k].(*ssa.Phi); !isPhi {
+						break
+					}
+					k++
+				}
+				ub.Instrs = append(ub.Instrs[:k:k], append([]ssa.Instruction{n}, ub.Instrs[k:]...)...)
+				perBlock[ub] = n
+			}
+			for _, p := range u.Operands(nil) {
+				if *p == ssa.Value(ld) {
+					*p = n
+					addRef(n, u)
+				}
+			}
+			delRef(ld, u)
+		}
+	}
+}
+
+func (in *inliner) threadDepth(f *ssa.Function, cont *ssa.BasicBlock, depth int) {
+	rematResultLoads(cont)
 	var ends []*ssa.BasicBlock
 	for _, cb := range in.splitPerPred(f, cont) {
 		// join the return site and its continuation into one straight line
@@ -784,6 +849,20 @@ func (in *inliner) thread(f *ssa.Function, cont *ssa.BasicBlock) {
 	}
 	for _, cb := range ends {
 		foldBranch(cb)
+	}
+	// the next case of a switch over the result: a block that only tests a result variable
+	// again and is now reached from several folded branches is made path-exact in its turn
+	if depth < 8 {
+		seenNext := map[*ssa.BasicBlock]bool{}
+		for _, cb := range ends {
+			for _, sc := range cb.Succs {
+				if seenNext[sc] || len(sc.Preds) < 2 || !testsResultOnly(sc) {
+					continue
+				}
+				seenNext[sc] = true
+				in.threadDepth(f, sc, depth+1)
+			}
+		}
 	}
 	// several folded branches may now lead to one and the same `return err`: each way in
 	// gets its own return, as each had its own return statement before the extraction
@@ -806,6 +885,34 @@ func (in *inliner) thread(f *ssa.Function, cont *ssa.BasicBlock) {
 			break
 		}
 	}
+}
+
+// testsResultOnly: the block reads result variables of inlined calls, compares and branches, nothing else.
+func testsResultOnly(b *ssa.BasicBlock) bool {
+	if len(b.Instrs) < 2 {
+		return false
+	}
+	if _, isIf := b.Instrs[len(b.Instrs)-1].(*ssa.If); !isIf {
+		return false
+	}
+	reads := false
+	for _, x := range b.Instrs[:len(b.Instrs)-1] {
+		switch t := x.(type) {
+		case *ssa.UnOp:
+			if t.Op == token.NOT {
+				continue
+			}
+			al, ok := t.X.(*ssa.Alloc)
+			if t.Op != token.MUL || !ok || al.Comment != "inl.result" {
+				return false
+			}
+			reads = true
+		case *ssa.BinOp, *ssa.DebugRef:
+		default:
+			return false
+		}
+	}
+	return reads
 }
 
 // forwardTemps removes the temporaries of an inlined call where they are
@@ -1166,6 +1273,7 @@ func (in *inliner) devirtPerPred(f *ssa.Function, b *ssa.BasicBlock) bool {
 						if ld, isLd := t.Call.Value.(*ssa.UnOp); isLd && ld.Op == token.MUL && ld.X == ssa.Value(al) && !isNil {
 							delRef(ld, t)
 							t.Call.Value = fn
+							addRef(fn, t)
 						}
 					case *ssa.BinOp:
 						// `op != nil` / `op == nil`
@@ -1198,16 +1306,40 @@ func (in *inliner) devirtPerPred(f *ssa.Function, b *ssa.BasicBlock) bool {
 // constFuncAtEnd: along the straight line of unique predecessors that ends in p the variable
 // is last assigned one plain function, or nil / nothing since its declaration.
 func constFuncAtEnd(al *ssa.Alloc, p *ssa.BasicBlock) (fn *ssa.Function, isNil bool, ok bool) {
+	return constFuncBefore(al, p, len(p.Instrs), 0)
+}
+
+// constFuncBefore: what the function variable al holds just before instruction number idx of blk, searching
+// back along the only way there. A copy from another function variable is followed from the copy on.
+func constFuncBefore(al *ssa.Alloc, blk0 *ssa.BasicBlock, idx int, depth int) (fn *ssa.Function, isNil bool, ok bool) {
+	if depth > 3 {
+		return nil, false, false
+	}
 	seen := map[*ssa.BasicBlock]bool{}
-	for blk := p; blk != nil && !seen[blk]; {
+	first := true
+	for blk := blk0; blk != nil && !seen[blk]; {
 		seen[blk] = true
-		for i := len(blk.Instrs) - 1; i >= 0; i-- {
+		from := len(blk.Instrs) - 1
+		if first {
+			from = idx - 1
+			first = false
+		}
+		for i := from; i >= 0; i-- {
 			if st, isSt := blk.Instrs[i].(*ssa.Store); isSt && st.Addr == ssa.Value(al) {
-				if g, isFn := st.Val.(*ssa.Function); isFn && g.Parent() == nil {
+				v := st.Val
+				if ct, isCT := v.(*ssa.ChangeType); isCT {
+					v = ct.X
+				}
+				if g, isFn := v.(*ssa.Function); isFn && (g.Parent() == nil || len(g.FreeVars) == 0) {
 					return g, false, true
 				}
-				if c0, isC := st.Val.(*ssa.Const); isC && c0.IsNil() {
+				if c0, isC := v.(*ssa.Const); isC && c0.IsNil() {
 					return nil, true, true
+				}
+				if ld, isLd := v.(*ssa.UnOp); isLd && ld.Op == token.MUL && ld.Block() == blk {
+					if src, isAl := ld.X.(*ssa.Alloc); isAl && src != al {
+						return constFuncBefore(src, blk, instrIdx(ld), depth+1)
+					}
 				}
 				return nil, false, false
 			}
@@ -2208,6 +2340,8 @@ func (in *inliner) process(f *ssa.Function) {
 	for i := 0; i < len(f.AnonFuncs); i++ {
 		in.process(f.AnonFuncs[i])
 	}
+	// a literal kept in a variable that only other literals called: dead once those calls are inlined
+	in.dropDeadLiterals(f)
 }
 
 // dropDeadLiterals removes function literals (and bound-method values) whose
@@ -2286,6 +2420,36 @@ func deadValue(v ssa.Value, kill *[]ssa.Instruction, d int) bool {
 						return false
 					}
 				case *ssa.DebugRef:
+				case *ssa.MakeClosure:
+					// captured by a literal that no longer uses it (its calls through the
+					// variable were inlined)
+					lit, isLit := ct.Fn.(*ssa.Function)
+					if !isLit {
+						return false
+					}
+					for i, bnd := range ct.Bindings {
+						if bnd != ssa.Value(a) {
+							continue
+						}
+						if i >= len(lit.FreeVars) {
+							return false
+						}
+						for _, fu := range *lit.FreeVars[i].Referrers() {
+							if _, isDbg := fu.(*ssa.DebugRef); isDbg {
+								continue
+							}
+							// a read whose value nothing uses any more
+							ld, isLd := fu.(*ssa.UnOp)
+							if !isLd || ld.Op != token.MUL {
+								return false
+							}
+							for _, lu := range *ld.Referrers() {
+								if _, isDbg := lu.(*ssa.DebugRef); !isDbg {
+									return false
+								}
+							}
+						}
+					}
 				default:
 					return false
 				}
@@ -2489,6 +2653,677 @@ func resolveFuncCell(addr ssa.Value, d int) *funcValue {
 	return nil
 }
 
+// tableEntry: one key of a package-level table of functions.
+type tableEntry struct {
+	key    *ssa.Const
+	fn     *ssa.Function   // a table of functions
+	fields []*ssa.Function // a table of structs whose fields are all functions: one per field
+}
+
+var globalTableCache = map[*ssa.Global][]tableEntry{}
+
+// globalFuncTable: the package-level map variable g holds, for the whole life of the program, the
+// map literal the package initialiser stores there: constant keys, each bound once to a function
+// (a declared function or a literal without free variables). No other instruction of the package
+// stores to g, updates or deletes from the map, or takes g's address; reads are lookups and len only.
+func globalFuncTable(g *ssa.Global) []tableEntry {
+	if t, ok := globalTableCache[g]; ok {
+		return t
+	}
+	globalTableCache[g] = nil
+	if g.Pkg == nil {
+		return nil
+	}
+	if _, isMap := g.Type().(*types.Pointer).Elem().Underlying().(*types.Map); !isMap {
+		return nil
+	}
+	if g.Object() != nil && g.Object().Exported() {
+		return nil // another package may write it
+	}
+	bad := false
+	var made *ssa.MakeMap
+	var visit func(f *ssa.Function)
+	visit = func(f *ssa.Function) {
+		isInit := f.Name() == "init" && f.Parent() == nil
+		for _, b := range f.Blocks {
+			for _, x := range b.Instrs {
+				for _, op := range x.Operands(nil) {
+					if *op != ssa.Value(g) {
+						continue
+					}
+					switch t := x.(type) {
+					case *ssa.Store:
+						mm, isMM := t.Val.(*ssa.MakeMap)
+						if t.Addr != ssa.Value(g) || !isInit || !isMM || made != nil {
+							bad = true
+							continue
+						}
+						made = mm
+					case *ssa.UnOp:
+						if t.Op != token.MUL {
+							bad = true
+							continue
+						}
+						// the loaded map: looked up, measured, ranged over; never written
+						for _, r := range *t.Referrers() {
+							switch u := r.(type) {
+							case *ssa.Lookup, *ssa.DebugRef, *ssa.Range:
+							case *ssa.Call:
+								if bi, isB := u.Call.Value.(*ssa.Builtin); !isB || bi.Name() != "len" {
+									bad = true
+								}
+							default:
+								_ = u
+								bad = true
+							}
+						}
+					case *ssa.DebugRef:
+					default:
+						bad = true
+					}
+				}
+			}
+		}
+		for _, a := range f.AnonFuncs {
+			visit(a)
+		}
+	}
+	for _, mem := range g.Pkg.Members {
+		switch t := mem.(type) {
+		case *ssa.Function:
+			visit(t)
+		case *ssa.Type:
+			for _, ty := range []types.Type{t.Type(), types.NewPointer(t.Type())} {
+				ms := g.Pkg.Prog.MethodSets.MethodSet(ty)
+				for i := 0; i < ms.Len(); i++ {
+					if fn := g.Pkg.Prog.MethodValue(ms.At(i)); fn != nil && fn.Pkg == g.Pkg {
+						visit(fn)
+					}
+				}
+			}
+		}
+	}
+	if bad || made == nil {
+		return nil
+	}
+	var out []tableEntry
+	seen := map[string]bool{}
+	for _, r := range *made.Referrers() {
+		switch u := r.(type) {
+		case *ssa.MapUpdate:
+			k, isK := u.Key.(*ssa.Const)
+			if !isK || u.Map != ssa.Value(made) || k.Value == nil || seen[k.Value.ExactString()] {
+				return nil
+			}
+			seen[k.Value.ExactString()] = true
+			var fn *ssa.Function
+			switch v := u.Value.(type) {
+			case *ssa.Function:
+				if len(v.FreeVars) == 0 {
+					fn = v
+				}
+			case *ssa.MakeClosure:
+				if lit, isFn := v.Fn.(*ssa.Function); isFn && len(v.Bindings) == 0 {
+					fn = lit
+				}
+			case *ssa.ChangeType:
+				if lit, isFn := v.X.(*ssa.Function); isFn && len(lit.FreeVars) == 0 {
+					fn = lit
+				}
+			case *ssa.UnOp:
+				// a struct literal: every field a function, each written once before the value is read
+				if fs := structOfFuncs(v); fs != nil {
+					out = append(out, tableEntry{key: k, fields: fs})
+					continue
+				}
+			}
+			if fn == nil {
+				return nil
+			}
+			out = append(out, tableEntry{key: k, fn: fn})
+		case *ssa.Store:
+			if u.Val != ssa.Value(made) {
+				return nil
+			}
+		case *ssa.DebugRef:
+		default:
+			return nil
+		}
+	}
+	sort.Slice(out, func(i, j int) bool { return out[i].key.Value.ExactString() < out[j].key.Value.ExactString() })
+	globalTableCache[g] = out
+	return out
+}
+
+// structOfFuncs: v reads a local struct variable (a composite literal) all of whose fields are of
+// function type and are each assigned once, a declared function or a literal without free variables.
+func structOfFuncs(v *ssa.UnOp) []*ssa.Function {
+	al, ok := v.X.(*ssa.Alloc)
+	if !ok || v.Op != token.MUL {
+		return nil
+	}
+	st, ok := al.Type().(*types.Pointer).Elem().Underlying().(*types.Struct)
+	if !ok || st.NumFields() == 0 {
+		return nil
+	}
+	out := make([]*ssa.Function, st.NumFields())
+	for _, r := range *al.Referrers() {
+		switch t := r.(type) {
+		case *ssa.FieldAddr:
+			for _, r2 := range *t.Referrers() {
+				sto, isSt := r2.(*ssa.Store)
+				if !isSt || sto.Addr != ssa.Value(t) || out[t.Field] != nil {
+					if _, isDbg := r2.(*ssa.DebugRef); isDbg {
+						continue
+					}
+					return nil
+				}
+				switch fv := sto.Val.(type) {
+				case *ssa.Function:
+					if len(fv.FreeVars) == 0 {
+						out[t.Field] = fv
+					}
+				case *ssa.MakeClosure:
+					if lit, isFn := fv.Fn.(*ssa.Function); isFn && len(fv.Bindings) == 0 {
+						out[t.Field] = lit
+					}
+				}
+				if out[t.Field] == nil {
+					return nil
+				}
+			}
+		case *ssa.UnOp:
+			if t != v {
+				return nil
+			}
+		case *ssa.DebugRef:
+		default:
+			return nil
+		}
+	}
+	for i := range out {
+		if out[i] == nil {
+			return nil
+		}
+		if _, isSig := st.Field(i).Type().Underlying().(*types.Signature); !isSig {
+			return nil
+		}
+	}
+	return out
+}
+
+// splitFuncStructs: a local struct variable whose fields are all functions and which is only ever
+// accessed field by field or copied as a whole into another such variable is replaced by one
+// variable per field (a whole copy becomes the copies of the fields), so that the functions it holds
+// are function variables for step 2e.
+func (in *inliner) splitFuncStructs(f *ssa.Function) bool {
+	allFuncs := func(t types.Type) *types.Struct {
+		st, ok := t.Underlying().(*types.Struct)
+		if !ok || st.NumFields() == 0 {
+			return nil
+		}
+		for i := 0; i < st.NumFields(); i++ {
+			if _, isSig := st.Field(i).Type().Underlying().(*types.Signature); !isSig {
+				return nil
+			}
+		}
+		return st
+	}
+	cand := map[*ssa.Alloc]bool{}
+	for _, b := range f.Blocks {
+		for _, x := range b.Instrs {
+			if al, ok := x.(*ssa.Alloc); ok && allFuncs(al.Type().(*types.Pointer).Elem()) != nil {
+				cand[al] = true
+			}
+		}
+	}
+	for changed := true; changed; {
+		changed = false
+		for al := range cand {
+			ok := true
+			for _, r := range *al.Referrers() {
+				switch t := r.(type) {
+				case *ssa.FieldAddr:
+					for _, r2 := range *t.Referrers() {
+						switch u := r2.(type) {
+						case *ssa.Store:
+							if u.Addr != ssa.Value(t) {
+								ok = false
+							}
+						case *ssa.UnOp:
+							if u.Op != token.MUL {
+								ok = false
+							}
+						case *ssa.DebugRef:
+						default:
+							ok = false
+						}
+					}
+				case *ssa.Store:
+					// a whole copy into al from another candidate
+					ld, isLd := t.Val.(*ssa.UnOp)
+					if t.Addr != ssa.Value(al) || !isLd || ld.Op != token.MUL {
+						ok = false
+						break
+					}
+					src, isAl := ld.X.(*ssa.Alloc)
+					if !isAl || !cand[src] {
+						ok = false
+					}
+				case *ssa.UnOp:
+					// read as a whole: only to be copied into another candidate
+					if t.Op != token.MUL {
+						ok = false
+						break
+					}
+					for _, r2 := range *t.Referrers() {
+						switch u := r2.(type) {
+						case *ssa.Store:
+							dst, isAl := u.Addr.(*ssa.Alloc)
+							if u.Val != ssa.Value(t) || !isAl || !cand[dst] {
+								ok = false
+							}
+						case *ssa.DebugRef:
+						default:
+							ok = false
+						}
+					}
+				case *ssa.DebugRef:
+				default:
+					ok = false
+				}
+			}
+			if !ok {
+				delete(cand, al)
+				changed = true
+			}
+		}
+	}
+	if len(cand) == 0 {
+		return false
+	}
+	var order []*ssa.Alloc
+	for _, b := range f.Blocks {
+		for _, x := range b.Instrs {
+			if al, ok := x.(*ssa.Alloc); ok && cand[al] {
+				order = append(order, al)
+			}
+		}
+	}
+	parts := map[*ssa.Alloc][]*ssa.Alloc{}
+	insertBefore := func(at ssa.Instruction, n ssa.Instruction) {
+		b := at.Block()
+		i := instrIdx(at)
+		ssa.XSetBlock(n, b)
+		b.Instrs = append(b.Instrs[:i:i], append([]ssa.Instruction{n}, b.Instrs[i:]...)...)
+	}
+	for _, al := range order {
+		st := allFuncs(al.Type().(*types.Pointer).Elem())
+		for i := 0; i < st.NumFields(); i++ {
+			c := &ssa.Alloc{Comment: al.Comment + "." + st.Field(i).Name(), Heap: al.Heap}
+			ssa.XSetType(c, types.NewPointer(st.Field(i).Type()))
+			ssa.XSetPos(c, al.Pos())
+			insertBefore(al, c)
+			if !al.Heap {
+				f.Locals = append(f.Locals, c)
+			}
+			parts[al] = append(parts[al], c)
+		}
+	}
+	for _, al := range order {
+		for _, r := range append([]ssa.Instruction(nil), *al.Referrers()...) {
+			switch t := r.(type) {
+			case *ssa.FieldAddr:
+				for _, r2 := range append([]ssa.Instruction(nil), *t.Referrers()...) {
+					if _, isDbg := r2.(*ssa.DebugRef); isDbg {
+						removeInstr(r2)
+					}
+				}
+				replaceUses(t, parts[al][t.Field])
+				removeInstr(t)
+			case *ssa.UnOp:
+				// the whole read, and the stores that copy it
+				for _, r2 := range append([]ssa.Instruction(nil), *t.Referrers()...) {
+					sto, isSt := r2.(*ssa.Store)
+					if !isSt {
+						removeInstr(r2)
+						continue
+					}
+					dst := sto.Addr.(*ssa.Alloc)
+					for i, pc := range parts[al] {
+						ld := &ssa.UnOp{Op: token.MUL, X: pc}
+						ssa.XSetType(ld, pc.Type().(*types.Pointer).Elem())
+						ssa.XSetPos(ld, t.Pos())
+						insertBefore(t, ld)
+						addRef(pc, ld)
+						ns := &ssa.Store{Addr: parts[dst][i], Val: ld}
+
+						insertBefore(sto, ns)
+						addRef(parts[dst][i], ns)
+						addRef(ld, ns)
+					}
+					removeInstr(sto)
+				}
+				removeInstr(t)
+			case *ssa.DebugRef:
+				removeInstr(t)
+			}
+		}
+	}
+	for _, al := range order {
+		if len(*al.Referrers()) == 0 {
+			removeInstr(al)
+			for i, l := range f.Locals {
+				if l == al {
+					f.Locals = append(f.Locals[:i:i], f.Locals[i+1:]...)
+					break
+				}
+			}
+		}
+	}
+	in.touched[f] = true
+	return true
+}
+
+// forwardFuncCopies: a function variable X assigned once, from a read of another function variable Y
+// (a parameter copy of an inlined method with a value receiver), is read as Y wherever no assignment
+// of Y can get between: every way from an assignment of Y to a read of X passes X's own assignment.
+func (in *inliner) forwardFuncCopies(f *ssa.Function) bool {
+	private := func(al *ssa.Alloc) bool {
+		if _, isSig := al.Type().(*types.Pointer).Elem().Underlying().(*types.Signature); !isSig {
+			return false
+		}
+		for _, r := range *al.Referrers() {
+			switch t := r.(type) {
+			case *ssa.Store:
+				if t.Addr != ssa.Value(al) {
+					return false
+				}
+			case *ssa.UnOp:
+				if t.Op != token.MUL {
+					return false
+				}
+			case *ssa.DebugRef:
+			default:
+				return false
+			}
+		}
+		return true
+	}
+	did := false
+	for _, b := range f.Blocks {
+		for _, ins := range append([]ssa.Instruction(nil), b.Instrs...) {
+			xal, ok := ins.(*ssa.Alloc)
+			if !ok || !private(xal) {
+				continue
+			}
+			var only *ssa.Store
+			n := 0
+			for _, r := range *xal.Referrers() {
+				if st, isSt := r.(*ssa.Store); isSt {
+					only = st
+					n++
+				}
+			}
+			if n != 1 {
+				continue
+			}
+			ld, isLd := only.Val.(*ssa.UnOp)
+			if !isLd || ld.Op != token.MUL {
+				continue
+			}
+			yal, isAl := ld.X.(*ssa.Alloc)
+			if !isAl || yal == xal || !private(yal) {
+				continue
+			}
+			// no assignment of Y between its read and X's assignment
+			if _, between := pathExists(f, ld, func(i2 ssa.Instruction) bool {
+				st, isSt := i2.(*ssa.Store)
+				return isSt && st.Addr == ssa.Value(yal)
+			}, func(i2 ssa.Instruction) bool { return i2 == ssa.Instruction(only) }); between {
+				continue
+			}
+			var reads []*ssa.UnOp
+			for _, r := range *xal.Referrers() {
+				if u, isU := r.(*ssa.UnOp); isU {
+					reads = append(reads, u)
+				}
+			}
+			safe := true
+			for _, r := range *yal.Referrers() {
+				st, isSt := r.(*ssa.Store)
+				if !isSt {
+					continue
+				}
+				for _, rd := range reads {
+					if _, reach := pathExists(f, st, func(i2 ssa.Instruction) bool { return i2 == ssa.Instruction(rd) }, func(i2 ssa.Instruction) bool { return i2 == ssa.Instruction(only) }); reach {
+						safe = false
+					}
+				}
+			}
+			if !safe {
+				continue
+			}
+			for _, rd := range reads {
+				delRef(xal, rd)
+				rd.X = yal
+				addRef(yal, rd)
+			}
+			did = true
+		}
+	}
+	if did {
+		in.touched[f] = true
+	}
+	return did
+}
+
+// tablesToChains: 2h. `fn, ok := table[key]` on a package-level table of functions (globalFuncTable)
+// is the chain `if key == k1 { fn, ok = f1, true } else if key == k2 { .. }` the table stands for: the
+// lookup is replaced by that chain, writing a function variable and a flag. Step 2e then makes the
+// calls through the variable direct on each way out of the chain.
+func (in *inliner) tablesToChains(f *ssa.Function) bool {
+	did := false
+	for round := 0; round < 8; round++ {
+		var lk *ssa.Lookup
+		var entries []tableEntry
+		for _, b := range f.Blocks {
+			for _, x := range b.Instrs {
+				l, ok := x.(*ssa.Lookup)
+				if !ok {
+					continue
+				}
+				ld, ok := l.X.(*ssa.UnOp)
+				if !ok || ld.Op != token.MUL {
+					continue
+				}
+				g, ok := ld.X.(*ssa.Global)
+				if !ok {
+					continue
+				}
+				if es := globalFuncTable(g); len(es) > 0 && len(es) <= 32 {
+					lk, entries = l, es
+				}
+			}
+		}
+		if lk == nil {
+			break
+		}
+		b := lk.Block()
+		idx := instrIdx(lk)
+		mt := lk.X.Type().Underlying().(*types.Map)
+		// the two variables, declared where the lookup was
+		cv := &ssa.Alloc{Comment: "table.fn"}
+		ssa.XSetType(cv, types.NewPointer(mt.Elem()))
+		ssa.XSetPos(cv, lk.Pos())
+		cok := &ssa.Alloc{Comment: "table.ok"}
+		ssa.XSetType(cok, types.NewPointer(types.Typ[types.Bool]))
+		ssa.XSetPos(cok, lk.Pos())
+		f.Locals = append(f.Locals, cv, cok)
+		post := ssa.XNewBlock(f, "table.done")
+		f.Blocks = append(f.Blocks, post)
+		rest := append([]ssa.Instruction(nil), b.Instrs[idx+1:]...)
+		b.Instrs = b.Instrs[:idx:idx]
+		for _, x := range rest {
+			ssa.XSetBlock(x, post)
+		}
+		post.Succs = b.Succs
+		for _, sc := range post.Succs {
+			for i, p := range sc.Preds {
+				if p == b {
+					sc.Preds[i] = post
+				}
+			}
+		}
+		b.Succs = nil
+		emit(b, cv)
+		emit(b, cok)
+		// reads of the two variables at the head of the continuation
+		ldv := &ssa.UnOp{Op: token.MUL, X: cv}
+		ssa.XSetType(ldv, mt.Elem())
+		ssa.XSetPos(ldv, lk.Pos())
+		ssa.XSetBlock(ldv, post)
+		addRef(cv, ldv)
+		ldok := &ssa.UnOp{Op: token.MUL, X: cok}
+		ssa.XSetType(ldok, types.Typ[types.Bool])
+		ssa.XSetPos(ldok, lk.Pos())
+		ssa.XSetBlock(ldok, post)
+		addRef(cok, ldok)
+		post.Instrs = append([]ssa.Instruction{ldv, ldok}, rest...)
+		// the chain
+		cur := b
+		for _, e := range entries {
+			cmp := &ssa.BinOp{Op: token.EQL, X: lk.Index, Y: ssa.NewConst(e.key.Value, lk.Index.Type())}
+			ssa.XSetType(cmp, types.Typ[types.Bool])
+			ssa.XSetPos(cmp, lk.Pos())
+			emit(cur, cmp)
+			addRef(lk.Index, cmp)
+			iff := &ssa.If{Cond: cmp}
+			emit(cur, iff)
+			addRef(cmp, iff)
+			hit := ssa.XNewBlock(f, "table.case")
+			next := ssa.XNewBlock(f, "table.next")
+			f.Blocks = append(f.Blocks, hit, next)
+			cur.Succs = []*ssa.BasicBlock{hit, next}
+			hit.Preds = append(hit.Preds, cur)
+			next.Preds = append(next.Preds, cur)
+			if e.fn != nil {
+				var fv ssa.Value = e.fn
+				if !types.Identical(e.fn.Type(), mt.Elem()) {
+					ct := &ssa.ChangeType{X: e.fn}
+					ssa.XSetType(ct, mt.Elem())
+					ssa.XSetPos(ct, lk.Pos())
+					emit(hit, ct)
+					fv = ct
+				}
+				s1 := &ssa.Store{Addr: cv, Val: fv}
+				emit(hit, s1)
+				addRef(cv, s1)
+				addRef(fv, s1)
+			} else {
+				stt := mt.Elem().Underlying().(*types.Struct)
+				for fi, ff := range e.fields {
+					fa := &ssa.FieldAddr{X: cv, Field: fi}
+					ssa.XSetType(fa, types.NewPointer(stt.Field(fi).Type()))
+					ssa.XSetPos(fa, lk.Pos())
+					emit(hit, fa)
+					addRef(cv, fa)
+					var fv ssa.Value = ff
+					if !types.Identical(ff.Type(), stt.Field(fi).Type()) {
+						ct := &ssa.ChangeType{X: ff}
+						ssa.XSetType(ct, stt.Field(fi).Type())
+						ssa.XSetPos(ct, lk.Pos())
+						emit(hit, ct)
+						fv = ct
+					}
+					s1 := &ssa.Store{Addr: fa, Val: fv}
+					emit(hit, s1)
+					addRef(fa, s1)
+					addRef(fv, s1)
+				}
+			}
+			s2 := &ssa.Store{Addr: cok, Val: ssa.NewConst(constant.MakeBool(true), types.Typ[types.Bool])}
+			emit(hit, s2)
+			addRef(cok, s2)
+			emit(hit, &ssa.Jump{})
+			hit.Succs = []*ssa.BasicBlock{post}
+			post.Preds = append(post.Preds, hit)
+			cur = next
+		}
+		emit(cur, &ssa.Jump{})
+		cur.Succs = []*ssa.BasicBlock{post}
+		post.Preds = append(post.Preds, cur)
+		// the results of the lookup
+		if lk.CommaOk {
+			for _, r := range append([]ssa.Instruction(nil), *lk.Referrers()...) {
+				ex, isEx := r.(*ssa.Extract)
+				if !isEx {
+					continue
+				}
+				if ex.Index == 0 {
+					replaceUses(ex, ldv)
+				} else {
+					replaceUses(ex, ldok)
+				}
+				removeInstr(ex)
+			}
+		} else {
+			replaceUses(lk, ldv)
+		}
+		for _, r := range append([]ssa.Instruction(nil), *lk.Referrers()...) {
+			if _, isDbg := r.(*ssa.DebugRef); isDbg {
+				removeInstr(r)
+			}
+		}
+		delRef(lk.X, lk)
+		delRef(lk.Index, lk)
+		in.touched[f] = true
+		in.tables++
+		did = true
+		in.finish(f)
+		delete(in.touched, f)
+		if in.ever == nil {
+			in.ever = map[*ssa.Function]bool{}
+		}
+		in.ever[f] = true
+		if in.splitFuncStructs(f) {
+			in.forwardFuncCopies(f)
+			in.finish(f)
+			delete(in.touched, f)
+		}
+		// the ways out of the chain meet again: there the calls through the variable are made direct
+		for k := 0; k < 12; k++ {
+			again := false
+			for _, mb := range append([]*ssa.BasicBlock(nil), f.Blocks...) {
+				if len(mb.Preds) >= 2 && in.devirtPerPred(f, mb) {
+					in.touched[f] = true
+					again = true
+					break
+				}
+			}
+			if in.touched[f] {
+				in.finish(f)
+				delete(in.touched, f)
+			}
+			if !again {
+				break
+			}
+		}
+		if in.touched[f] {
+			in.finish(f)
+			delete(in.touched, f)
+		}
+		// the functions of the table are literals of the package initialiser: called directly now,
+		// they are inlined like any other literal called where it is known
+		in.process(f)
+		if in.touched[f] {
+			in.finish(f)
+			delete(in.touched, f)
+		}
+	}
+	return did
+}
+
 var globalFieldCache = map[*ssa.Global]map[int]*ssa.Function{}
 
 // globalFuncField: field `field` of the package-level struct variable g holds, for the whole
@@ -2503,6 +3338,9 @@ func globalFuncField(g *ssa.Global, field int) *ssa.Function {
 	globalFieldCache[g] = m
 	if g.Pkg == nil {
 		return nil
+	}
+	if g.Object() != nil && g.Object().Exported() {
+		return nil // another package may write it
 	}
 	bad := false
 	count := map[int]int{}
@@ -2733,6 +3571,9 @@ func inlineHelpers(tops []*ssa.Function) (dropped map[*ssa.Function]bool, notes 
 	dropped = map[*ssa.Function]bool{}
 	if len(in.cand) == 0 && len(in.skipped) == 0 {
 		for _, f := range tops {
+			in.tablesToChains(f)
+		}
+		for _, f := range tops {
 			in.threadPhis(f)
 		}
 		in.finishTouched()
@@ -2794,9 +3635,29 @@ func inlineHelpers(tops []*ssa.Function) (dropped map[*ssa.Function]bool, notes 
 	}
 	in.finishTouched()
 	for _, f := range tops {
+		if len(f.Blocks) > 0 {
+			in.tablesToChains(f)
+		}
+	}
+	for _, f := range tops {
 		in.threadPhis(f)
 	}
 	in.finishTouched()
+	{
+		var fs []*ssa.Function
+		for f := range in.ever {
+			if len(f.Blocks) > 0 {
+				fs = append(fs, f)
+			}
+		}
+		sort.Slice(fs, func(i, j int) bool {
+			return fs[i].Pos() < fs[j].Pos() || (fs[i].Pos() == fs[j].Pos() && fs[i].Name() < fs[j].Name())
+		})
+		for _, f := range fs {
+			in.flagsUnderGuard(f)
+			in.devirtKnown(f)
+		}
+	}
 
 	// a helper is dropped when nothing refers to it any more
 	live := map[*ssa.Function]bool{}
@@ -2846,6 +3707,15 @@ func inlineHelpers(tops []*ssa.Function) (dropped map[*ssa.Function]bool, notes 
 	if in.regionCopies > 0 {
 		notes = append(notes, fmt.Sprintf("%d call(s) through a function variable assigned one known function on each way in: the code from the merge on was copied per way in, each copy calling its function directly", in.regionCopies))
 	}
+	if in.tables > 0 {
+		notes = append(notes, fmt.Sprintf("%d lookup(s) in a package-level table of functions, written by the package initialiser only, replaced by the chain of key tests the table stands for", in.tables))
+	}
+	if in.devirt > 0 {
+		notes = append(notes, fmt.Sprintf("%d call(s) through an interface whose dynamic type is known at the call made direct", in.devirt))
+	}
+	if in.flagsNamed > 0 {
+		notes = append(notes, fmt.Sprintf("%d constant true flag(s) under a test of a flag returned by a module function read as that flag", in.flagsNamed))
+	}
 	if in.litArgs > 0 {
 		notes = append(notes, fmt.Sprintf("%d go/defer statement(s) of a literal with arguments rewritten as a literal capturing fresh variables that hold the arguments", in.litArgs))
 	}
@@ -2862,6 +3732,199 @@ func (in *inliner) finishTouched() {
 	})
 	for _, f := range fs {
 		in.finish(f)
+		if in.ever == nil {
+			in.ever = map[*ssa.Function]bool{}
+		}
+		in.ever[f] = true
 	}
 	in.touched = map[*ssa.Function]bool{}
+}
+
+// concreteOf: the dynamic type of an interface value that is known where it is used: the value is a
+// MakeInterface, or is read from a variable (possibly one captured by a literal) that is assigned exactly
+// once, from such a value.
+func concreteOf(v ssa.Value, d int) types.Type {
+	if d > 6 {
+		return nil
+	}
+	switch t := v.(type) {
+	case *ssa.MakeInterface:
+		return t.X.Type()
+	case *ssa.ChangeInterface:
+		return concreteOf(t.X, d+1)
+	case *ssa.UnOp:
+		if t.Op != token.MUL {
+			return nil
+		}
+		switch c := t.X.(type) {
+		case *ssa.Alloc:
+			var only *ssa.Store
+			for _, r := range *c.Referrers() {
+				switch u := r.(type) {
+				case *ssa.Store:
+					if u.Addr != ssa.Value(c) || only != nil {
+						return nil
+					}
+					only = u
+				case *ssa.UnOp, *ssa.DebugRef:
+				case *ssa.MakeClosure:
+					if lit, ok := u.Fn.(*ssa.Function); ok {
+						for i, b := range u.Bindings {
+							if b == ssa.Value(c) && i < len(lit.FreeVars) && writtenThrough(lit.FreeVars[i], 0) {
+								return nil
+							}
+						}
+					}
+				default:
+					return nil
+				}
+			}
+			if only == nil {
+				return nil
+			}
+			return concreteOf(only.Val, d+1)
+		case *ssa.FreeVar:
+			lit := c.Parent()
+			mc := closureOfLit(lit)
+			if mc == nil || writtenThrough(c, 0) {
+				return nil
+			}
+			for i, fv := range lit.FreeVars {
+				if fv == c && i < len(mc.Bindings) {
+					if al, ok := mc.Bindings[i].(*ssa.Alloc); ok {
+						// the captured variable: read it as the owner would
+						ld := &ssa.UnOp{Op: token.MUL, X: al}
+						return concreteOf(ld, d+1)
+					}
+				}
+			}
+		}
+	}
+	return nil
+}
+
+// devirtKnown: 2g. A call through an interface whose dynamic type is known at the call (a helper that
+// takes its callee as an interface parameter, inlined at a site that passes a concrete node) is made a
+// direct call of that type's method, on the value asserted back to the type.
+func (in *inliner) devirtKnown(f *ssa.Function) {
+	for _, b := range f.Blocks {
+		for idx := 0; idx < len(b.Instrs); idx++ {
+			x := b.Instrs[idx]
+			cc := callCommon(x)
+			if cc == nil || !cc.IsInvoke() {
+				continue
+			}
+			T := concreteOf(cc.Value, 0)
+			if T == nil {
+				continue
+			}
+			sel := f.Prog.MethodSets.MethodSet(T).Lookup(cc.Method.Pkg(), cc.Method.Name())
+			if sel == nil {
+				continue
+			}
+			m := f.Prog.MethodValue(sel)
+			if m == nil || m.Pkg == nil || !strings.HasPrefix(m.Pkg.Pkg.Path(), modPath) || len(m.Blocks) == 0 {
+				continue
+			}
+			ta := &ssa.TypeAssert{X: cc.Value, AssertedType: T}
+			ssa.XSetType(ta, T)
+			ssa.XSetPos(ta, x.Pos())
+			ssa.XSetBlock(ta, b)
+			addRef(cc.Value, ta)
+			delRef(cc.Value, x)
+			b.Instrs = append(b.Instrs[:idx:idx], append([]ssa.Instruction{ta}, b.Instrs[idx:]...)...)
+			idx++
+			cc.Value = m
+			cc.Method = nil
+			cc.Args = append([]ssa.Value{ta}, cc.Args...)
+			addRef(ta, x)
+			in.devirt++
+		}
+	}
+}
+
+// flagsUnderGuard: 2f. A helper that classifies an outcome hands back constants: `if returned { return v,
+// nil, true }`. Under the true edge of a test of a flag that a module function returned, the constant
+// `true` *is* that flag. It is written back as the flag, so that "the child's flag is passed on" reads the
+// same whether the code passes the variable or a constant under a test of it. Only in functions the
+// normalisation changed, only the constant true, only under a flag returned by a module function.
+func (in *inliner) flagsUnderGuard(f *ssa.Function) {
+	moduleFlag := func(c ssa.Value) bool {
+		if ld, ok := c.(*ssa.UnOp); ok && ld.Op == token.MUL {
+			al, isAl := ld.X.(*ssa.Alloc)
+			if !isAl {
+				return false
+			}
+			var only *ssa.Store
+			for _, r := range *al.Referrers() {
+				switch t := r.(type) {
+				case *ssa.Store:
+					if t.Addr != ssa.Value(al) || only != nil {
+						return false
+					}
+					only = t
+				case *ssa.UnOp, *ssa.DebugRef:
+				default:
+					return false
+				}
+			}
+			if only == nil {
+				return false
+			}
+			c = only.Val
+		}
+		ex, ok := c.(*ssa.Extract)
+		if !ok {
+			return false
+		}
+		call, ok := ex.Tuple.(*ssa.Call)
+		if !ok {
+			return false
+		}
+		g := staticCallee(&call.Call)
+		return g != nil && g.Pkg != nil && strings.HasPrefix(g.Pkg.Pkg.Path(), modPath)
+	}
+	isTrue := func(v ssa.Value) bool {
+		k, ok := v.(*ssa.Const)
+		if !ok || k.Value == nil || k.Value.Kind() != constant.Bool {
+			return false
+		}
+		return constant.BoolVal(k.Value)
+	}
+	for _, b := range f.Blocks {
+		if len(b.Instrs) == 0 || len(b.Succs) != 2 {
+			continue
+		}
+		iff, ok := b.Instrs[len(b.Instrs)-1].(*ssa.If)
+		if !ok || !moduleFlag(iff.Cond) {
+			continue
+		}
+		t := b.Succs[0]
+		if t == b.Succs[1] || len(t.Preds) != 1 {
+			continue
+		}
+		for _, d := range f.Blocks {
+			if !t.Dominates(d) {
+				continue
+			}
+			for _, x := range d.Instrs {
+				switch st := x.(type) {
+				case *ssa.Store:
+					if isTrue(st.Val) && types.Identical(st.Val.Type(), iff.Cond.Type()) {
+						st.Val = iff.Cond
+						addRef(iff.Cond, st)
+						in.flagsNamed++
+					}
+				case *ssa.Return:
+					for i, r := range st.Results {
+						if isTrue(r) && types.Identical(r.Type(), iff.Cond.Type()) {
+							st.Results[i] = iff.Cond
+							addRef(iff.Cond, st)
+							in.flagsNamed++
+						}
+					}
+				}
+			}
+		}
+	}
 }
